@@ -617,7 +617,7 @@ fn explore() {
     let mut total_edges = 0usize;
     let mut capped = false;
     let mut per_graph = vec![];
-    for g in &graphs {
+    for (gi, g) in graphs.iter().enumerate() {
         let base = total_nodes;
         // (path, key, proj)
         let mut paths: Vec<Vec<usize>> = vec![];
@@ -686,11 +686,11 @@ fn explore() {
         let cid = intern.vals(&cid_hex(g));
         for (s, e) in rows.into_iter().enumerate() {
             let x = e.is_some();
-            o.put(&json!({"id": base + s, "g": g.ci, "root": s == 0, "x": x, "cid": cid,
+            o.put(&json!({"id": base + s, "g": g.ci, "gi": gi + 1, "root": s == 0, "x": x, "cid": cid,
                           "pre": intern.proj(&projs[s]), "e": e.unwrap_or_default(),
                           "path": paths[s].iter().map(|r| r + 1).collect::<Vec<_>>()}));
         }
-        per_graph.push(json!({"ci": g.ci, "nodes": paths.len()}));
+        per_graph.push(json!({"ci": g.ci, "fam": g.fam, "nodes": paths.len()}));
         total_nodes += paths.len();
     }
     o.finish();
